@@ -156,3 +156,38 @@ func VerifPollConfiguration(f Future[Configuration]) (Result[Configuration], boo
 		return nil, false
 	}
 }
+
+// VerifElectionHeld does what electionLoop does when it is woken (election() and, inside it,
+// sendRequestVoteToPeers), except that the goroutines sendRequestVoteToPeers would start with `go`
+// are returned to the caller, keyed by peer id, instead of being started. The Go scheduler may delay
+// a started goroutine for any length of time before it takes r.mu; handing the goroutines to the
+// harness makes such a schedule reproducible. The body of each goroutine is the library's own
+// sendRequestVote with the round's own vote counter.
+func VerifElectionHeld(r *Raft) map[string]func() {
+	r.mu.Lock()
+	defer r.mu.Unlock()
+	if r.state == Leader || r.state == Shutdown || !r.isVoter(r.id) ||
+		time.Since(r.lastContact) < r.options.electionTimeout {
+		return nil
+	}
+	if r.state == Follower {
+		r.becomePreCandidate()
+	}
+	if r.state == Candidate {
+		r.becomeCandidate()
+	}
+	if r.isSingleServerCluster() {
+		r.becomeLeader()
+		return nil
+	}
+	votesRecieved := 1
+	isPrevote := r.state == PreCandidate
+	held := map[string]func(){}
+	for id, address := range r.configuration.Members {
+		if id != r.id && r.isVoter(id) {
+			id, address := id, address
+			held[id] = func() { r.sendRequestVote(id, address, &votesRecieved, isPrevote) }
+		}
+	}
+	return held
+}
